@@ -680,6 +680,13 @@ def check_eq_pair(rec: Rec, a, b, how_a, how_b):
     except Exception as e:
         rec.violation("C20.eq/UnsignedByteField.__eq__/exception/" + type(e).__name__, case, repr(e), same)
         return None
+    try:
+        n1, n2 = (x != y), (y != x)
+    except Exception as e:
+        rec.violation("C20.eq/UnsignedByteField.__ne__/exception/" + type(e).__name__, case, repr(e), not same)
+        return None
+    if n1 == same or n2 == same:  # != is the negation of ==
+        rec.violation("C20.eq/UnsignedByteField.__ne__/not-the-negation-of-eq", case, (n1, n2), not same)
     if e1 != same or e2 != same:
         feat = "same-value-different-width" if (a[1] == b[1] and a[0] != b[0]) else ("same-width-different-value" if a[0] == b[0] and not same else "same-field")
         rec.violation(f"C20.eq/UnsignedByteField.__eq__/wrong/{feat}", case, (e1, e2), same)
@@ -694,6 +701,8 @@ def build_for_eq(u, f, how):
         return u.UnsignedByteField(v, w)
     if how == "gen":
         return u.ByteFieldGenerator.from_int(w, v)
+    if how == "from_bytes(memoryview)":  # octets handed over as a window into a receive buffer
+        return u.UnsignedByteField.from_bytes(memoryview(bytearray(b"\xee" + v.to_bytes(w, "big") + b"\xee"))[1:1 + w])
     return u.UnsignedByteField.from_bytes(v.to_bytes(w, "big"))
 
 
@@ -874,7 +883,7 @@ def run_shard(item):
                         "expected": "each new field reads 0x21, g keeps 0xde, every field handed out keeps its views while later cases run"}, limit=1)
     elif kind == "eqhash":
         fields = eq_fields()
-        hows = ("ctor", "gen", "bytes")
+        hows = ("ctor", "gen", "bytes", "from_bytes(memoryview)")
         n = 0
         for a in fields:
             for b in fields:
